@@ -6,6 +6,8 @@ package main
 // recording ConnectionHandler).
 
 import (
+	"net"
+	"bufio"
 	"context"
 	"encoding/json"
 	"fmt"
@@ -44,6 +46,35 @@ type httpEnv struct {
 	ContentType string      // header value; "" = header absent
 	Params      [][2]string // URL query parameters, in order
 	Body        string
+	// how the body travels: "" = Content-Length, in memory; "chunked-1" / "chunked-3" / "chunked-all":
+	// Transfer-Encoding: chunked (1-byte chunks, three chunks, one chunk) over a real connection;
+	// "cl-short": Content-Length one less than the bytes sent (the server hands the handler a prefix);
+	// "cl-long": Content-Length larger than the bytes sent, then the client stops sending (the
+	// stream ends before the announced length)
+	Framing string
+}
+
+// the bytes the handler can read from the request body, and whether the stream ends early
+func (e httpEnv) effectiveBody() (string, bool) {
+	switch e.Framing {
+	case "cl-short":
+		if len(e.Body) > 0 {
+			return e.Body[:len(e.Body)-1], false
+		}
+	case "cl-long":
+		return e.Body, true
+	}
+	return e.Body, false
+}
+
+type earlyEOF struct{ r io.Reader }
+
+func (x earlyEOF) Read(p []byte) (int, error) {
+	n, err := x.r.Read(p)
+	if err == io.EOF {
+		err = io.ErrUnexpectedEOF
+	}
+	return n, err
 }
 
 func (e httpEnv) url() string {
@@ -59,10 +90,24 @@ func (e httpEnv) url() string {
 
 func (e httpEnv) request() *http.Request {
 	var body io.Reader
+	eff, early := e.effectiveBody()
 	if e.Body != "" || e.Method == "POST" || e.Method == "PUT" {
-		body = strings.NewReader(e.Body)
+		body = strings.NewReader(eff)
+	}
+	switch {
+	case strings.HasPrefix(e.Framing, "chunked"):
+		// what net/http hands a handler for a chunked request: no Content-Length, a body of unknown length
+		body = io.MultiReader(strings.NewReader(eff))
+	case early:
+		body = earlyEOF{strings.NewReader(eff)}
 	}
 	r := httptest.NewRequest(e.Method, e.url(), body)
+	if strings.HasPrefix(e.Framing, "chunked") {
+		r.TransferEncoding = []string{"chunked"}
+	}
+	if early {
+		r.ContentLength = int64(len(eff)) + 7
+	}
 	if e.ContentType != "" {
 		r.Header.Set("Content-Type", e.ContentType)
 	}
@@ -77,7 +122,11 @@ func (e httpEnv) sexp() sexp.Node {
 	for _, p := range e.Params {
 		ps = append(ps, sexp.L(sexp.Str(p[0]), sexp.Str(p[1])))
 	}
-	return sexp.T("http", sexp.Str(e.Method), sexp.Str(media), sexp.L(ps...), sexp.Str(e.Body))
+	eff, early := e.effectiveBody()
+	if early {
+		return sexp.T("http", sexp.Str(e.Method), sexp.Str(media), sexp.L(ps...), sexp.Str(eff), sexp.Sym("ends-early"))
+	}
+	return sexp.T("http", sexp.Str(e.Method), sexp.Str(media), sexp.L(ps...), sexp.Str(eff))
 }
 
 type wsEnv struct {
@@ -88,6 +137,13 @@ type wsEnv struct {
 	ID      string  // operation id
 	Payload *string // raw payload text; nil = no payload member
 	Raw     string  // the frame text that is sent
+	// history on the connection: frames sent right before Raw (e.g. the client's own complete / stop
+	// for an id that is about to be reused); they are not answered
+	Pre []string
+	// Hold: the operation is a subscription that stays active: its first data frame ends the exchange
+	Hold bool
+	// Quiet: a silent message is expected and does not close a graphql-transport-ws connection
+	Quiet bool
 }
 
 func (e wsEnv) sexp() sexp.Node {
@@ -188,7 +244,11 @@ func newServer(c config) *server {
 	s := &server{cfg: c, rec: &recorder{}, conns: map[string]*wsClient{}}
 	s.api = newAPI(c, s.rec)
 	s.ts = httptest.NewServer(http.HandlerFunc(func(w http.ResponseWriter, r *http.Request) {
-		s.api.ServeGraphQLWS(w, r)
+		if websocket.IsWebSocketUpgrade(r) {
+			s.api.ServeGraphQLWS(w, r)
+		} else {
+			planMiddleware(s.api.ServeGraphQL)(w, r)
+		}
 	}))
 	return s
 }
@@ -201,7 +261,84 @@ func (s *server) close() {
 	s.ts.Close()
 }
 
+// rawRequest: the request as bytes on a connection, with the body framed as e.Framing says
+func (e httpEnv) rawRequest(feat bool) (req []byte, halfClose bool) {
+	var b strings.Builder
+	fmt.Fprintf(&b, "%s %s HTTP/1.1\r\nHost: harness\r\nConnection: close\r\nX-Plan: %s\r\n", e.Method, e.url(), planOf(feat))
+	if e.ContentType != "" {
+		fmt.Fprintf(&b, "Content-Type: %s\r\n", e.ContentType)
+	}
+	switch e.Framing {
+	case "cl-short":
+		fmt.Fprintf(&b, "Content-Length: %d\r\n\r\n%s", len(e.Body)-1, e.Body)
+	case "cl-long":
+		fmt.Fprintf(&b, "Content-Length: %d\r\n\r\n%s", len(e.Body)+7, e.Body)
+		halfClose = true
+	default: // chunked
+		b.WriteString("Transfer-Encoding: chunked\r\n\r\n")
+		var chunks []string
+		switch e.Framing {
+		case "chunked-1":
+			for i := 0; i < len(e.Body); i++ {
+				chunks = append(chunks, e.Body[i:i+1])
+			}
+		case "chunked-3":
+			a, c := len(e.Body)/3, 2*len(e.Body)/3
+			chunks = []string{e.Body[:a], e.Body[a:c], e.Body[c:]}
+		default:
+			chunks = []string{e.Body}
+		}
+		for _, c := range chunks {
+			if len(c) > 0 {
+				fmt.Fprintf(&b, "%x\r\n%s\r\n", len(c), c)
+			}
+		}
+		b.WriteString("0\r\n\r\n")
+	}
+	return []byte(b.String()), halfClose
+}
+
+// serveRaw sends the request over a real connection to the case's server
+func (s *server) serveRaw(e httpEnv, feat bool) (o apiObs) {
+	s.rec.take()
+	req, halfClose := e.rawRequest(feat)
+	conn, err := net.DialTimeout("tcp", s.ts.Listener.Addr().String(), 5*time.Second)
+	if err != nil {
+		panic(err)
+	}
+	defer conn.Close()
+	conn.SetDeadline(time.Now().Add(10 * time.Second))
+	if _, err := conn.Write(req); err != nil {
+		panic(err)
+	}
+	if halfClose {
+		conn.(*net.TCPConn).CloseWrite()
+	}
+	resp, err := http.ReadResponse(bufio.NewReader(conn), nil)
+	if err != nil {
+		o.Kind = "timeout"
+		o.Resolvers, o.Hooks = s.rec.take()
+		return o
+	}
+	body, _ := io.ReadAll(resp.Body)
+	resp.Body.Close()
+	o.Resolvers, o.Hooks = s.rec.take()
+	o.Kind, o.Code, o.Completed = "status", resp.StatusCode, true
+	o.HasHTTP, o.CType, o.CLen, o.Body = true, resp.Header.Get("Content-Type"), int(resp.ContentLength), body
+	if resp.StatusCode == 200 {
+		if c, ok := canonResponse(body); ok {
+			o.Payloads = []string{c}
+		} else {
+			o.Payloads = []string{"unparseable:" + string(body)}
+		}
+	}
+	return o
+}
+
 func (s *server) serveHTTP(e httpEnv, feat bool) (o apiObs) {
+	if e.Framing != "" {
+		return s.serveRaw(e, feat)
+	}
 	s.rec.take()
 	r := e.request()
 	r.Header.Set("X-Plan", planOf(feat))
@@ -375,6 +512,16 @@ func (c *wsClient) read(d time.Duration) (wsMsg, int, error) {
 	return m, 0, nil
 }
 
+func (c *wsClient) sendAll(frames []string) {
+	for _, f := range frames {
+		c.conn.SetWriteDeadline(time.Now().Add(5 * time.Second))
+		if err := c.conn.WriteMessage(websocket.TextMessage, []byte(f)); err != nil {
+			c.dead = true
+			return
+		}
+	}
+}
+
 type wsResult struct {
 	Kind      string // data, ignored, closed, timeout
 	Code      int
@@ -388,6 +535,10 @@ type wsResult struct {
 // after the frame delimits the answer ("nothing before the sentinel's complete" = ignored).
 // Subscriptions complete asynchronously: for those (async) the operation's own complete is awaited.
 func (c *wsClient) exchange(raw string, id string, sentinelID string, async bool) (res wsResult) {
+	return c.exchangeMode(raw, id, sentinelID, async, false, false)
+}
+
+func (c *wsClient) exchangeMode(raw string, id string, sentinelID string, async, hold, quiet bool) (res wsResult) {
 	if os.Getenv("C17_DEBUG") != "" {
 		t0 := time.Now()
 		defer func() {
@@ -407,7 +558,7 @@ func (c *wsClient) exchange(raw string, id string, sentinelID string, async bool
 	c.conn.WriteMessage(websocket.TextMessage, []byte(frameText("itp", startType(c.proto), sentinelID, &sp)))
 	sentinelDone := false
 	for {
-		if sentinelDone && (res.Completed || (len(res.Payloads) == 0 && !async)) {
+		if sentinelDone && (res.Completed || (len(res.Payloads) == 0 && !async) || (hold && len(res.Payloads) > 0)) {
 			break
 		}
 		m, code, err := c.read(10 * time.Second)
@@ -438,7 +589,7 @@ func (c *wsClient) exchange(raw string, id string, sentinelID string, async bool
 		return
 	}
 	res.Kind = "ignored"
-	if c.proto == "tws" && !c.noCloseWait {
+	if c.proto == "tws" && !c.noCloseWait && !quiet {
 		// graphql-transport-ws answers a bad message by closing the connection, but its read loop
 		// keeps serving what follows (the sentinel) until the close handshake is through: the close
 		// frame comes after the sentinel's answer.  Nothing else is pending, so wait for it briefly;
@@ -500,7 +651,8 @@ func (s *server) serveWS(e wsEnv, feat bool, async bool, caseNo int) (o apiObs) 
 		c := s.wsConn(e.Proto, feat)
 		c.primedFor = caseNo
 		s.rec.take()
-		r = c.exchange(e.Raw, e.ID, e.ID+"-s", async)
+		c.sendAll(e.Pre)
+		r = c.exchangeMode(e.Raw, e.ID, e.ID+"-s", async || e.Hold, e.Hold, e.Quiet)
 	}
 	o.Resolvers, o.Hooks = s.rec.take()
 	o.Kind, o.Code, o.Completed = r.Kind, r.Code, r.Completed
@@ -598,7 +750,8 @@ func (d *decoderServer) decodeWS(e wsEnv, caseNo int) sexp.Node {
 		c.prime(caseNo)
 		d.store.Delete(fmt.Sprintf("primer-%d", caseNo))
 		d.store.Delete(fmt.Sprintf("primer-%d-sub", caseNo))
-		r = c.exchange(e.Raw, e.ID, e.ID+"-s", false)
+		c.sendAll(e.Pre)
+		r = c.exchangeMode(e.Raw, e.ID, e.ID+"-s", false, false, e.Quiet)
 	}
 	switch r.Kind {
 	case "data":
